@@ -965,6 +965,7 @@ func (c *c18Run) codecSection() {
 	for _, md := range descs {
 		insts := g.instances(md, thorough)
 		total += len(insts)
+		heads, pool := c18DirtyPool(insts)
 		for ii, inst := range insts {
 			id := fmt.Sprintf("codec/%s/%s", md.FullName(), inst.Label)
 			if !c.take(id) {
@@ -976,6 +977,7 @@ func (c *c18Run) codecSection() {
 			}
 			for _, codec := range codecs {
 				c.codecRoundTrips(id, md, inst.Msg, codec)
+				c.codecReuse(id, md, inst, heads, pool, codec)
 			}
 			c.codecUnknown(id, md, inst.Msg)
 		}
@@ -1111,6 +1113,160 @@ func (c *c18Run) codecRoundTrips(id string, md protoreflect.MessageDescriptor, w
 	}
 }
 
+// c18DirtyPool selects, from the instances of one message type, those that serve
+// as PRIOR CONTENT of a decode destination. The selection goes by label and uses
+// only labels that exist in both tiers (so a replay finds the same companions):
+// pool = every field alone with its first and second value (repeated fields: one
+// and two elements) + all-fields-set (value index 0 and 1, every oneof choice);
+// heads = the all-fields-set ones (or, for types where they coincide with a
+// single-field instance, the first two of the pool).
+func c18DirtyPool(insts []c18Inst) (heads, pool []c18Inst) {
+	for _, in := range insts {
+		switch {
+		case strings.HasPrefix(in.Label, "full:v0:") || strings.HasPrefix(in.Label, "full:v1:"):
+			heads = append(heads, in)
+			pool = append(pool, in)
+		case !strings.Contains(in.Label, "+") && (strings.HasSuffix(in.Label, "=v0") || strings.HasSuffix(in.Label, "=v1")):
+			pool = append(pool, in)
+		}
+	}
+	if len(heads) == 0 {
+		heads = pool
+		if len(heads) > 2 {
+			heads = heads[:2]
+		}
+	}
+	return heads, pool
+}
+
+// codecReuse: "decode what they encode to an equal message" does not depend on
+// what the destination held before. The codec's own encoding of a message is
+// decoded into a destination that is NOT fresh:
+//   - pre-populated with a different instance of the type (every member of the
+//     pool: singular, repeated, oneof, sub-message fields set);
+//   - re-used for a sequence of three different messages (head, pool member,
+//     this message), compared after every step;
+//   - re-used after an input that was rejected for an unknown field (fresh and
+//     pre-populated destination), for this message and then for a second one.
+//
+// After every successful Unmarshal the destination must equal the message that
+// was encoded (proto.Equal, which also compares unknown fields).
+func (c *c18Run) codecReuse(id string, md protoreflect.MessageDescriptor, inst c18Inst, heads, pool []c18Inst, codec c18Codec) {
+	name := codec.Name()
+	want := inst.Msg
+	encode := func(m proto.Message) []byte {
+		var data []byte
+		var err error
+		if pn := c18Guard(func() { data, err = codec.Marshal(proto.Clone(m)) }); pn != "" || err != nil {
+			return nil // judged by codecRoundTrips
+		}
+		if data == nil {
+			data = []byte{} // a message without content encodes to zero bytes in the binary format
+		}
+		return data
+	}
+	wantData := encode(want)
+	if wantData == nil {
+		c.r.Count("codec:reuse-skipped-unencodable", 1)
+		return
+	}
+	// step decodes src into dst; false = stop this sequence
+	step := func(dst proto.Message, src c18Inst, data []byte, history string) bool {
+		c.r.Eval(1)
+		before := c18JSON(dst)
+		var uerr error
+		if pn := c18Guard(func() { uerr = codec.Unmarshal(data, dst) }); pn != "" {
+			c.violate("codec:"+name+"-unmarshal-panic", id, fmt.Sprintf("%s codec, destination %s: panic: %s", name, history, pn))
+			return false
+		}
+		switch {
+		case uerr != nil:
+			c.violate("codec:"+name+"-used-destination-undecodable", id, fmt.Sprintf("%s codec: Unmarshal(Marshal(%s)) into a destination that %s (content %s) failed: %v — the same bytes decode into a fresh message", name, src.Label, history, before, uerr))
+			c.r.Outcome("reuse:" + name + ":error")
+			return false
+		case !proto.Equal(dst, src.Msg):
+			c.violate("codec:"+name+"-used-destination-not-equal", id, fmt.Sprintf("%s codec: Unmarshal(Marshal(m)) into a destination that %s (content %s): m = %s %s, decoded = %s", name, history, before, src.Label, c18JSON(src.Msg), c18JSON(dst)))
+			c.r.Outcome("reuse:" + name + ":not-equal")
+			return false
+		}
+		c.r.Outcome("reuse:" + name + ":equal")
+		return true
+	}
+	same := func(a, b c18Inst) bool { return a.Label == b.Label }
+	// (1) pre-populated destination
+	for _, d := range pool {
+		if same(d, inst) {
+			continue
+		}
+		step(proto.Clone(d.Msg), inst, wantData, "was pre-populated with instance "+d.Label)
+	}
+	// (2) one destination for a sequence of three messages
+	for _, h := range heads {
+		hData := encode(h.Msg)
+		if hData == nil {
+			continue
+		}
+		for _, d := range pool {
+			if same(d, h) || same(d, inst) {
+				continue
+			}
+			dData := encode(d.Msg)
+			if dData == nil {
+				continue
+			}
+			dst := want.ProtoReflect().New().Interface()
+			if !step(dst, h, hData, "is fresh (1st message of a sequence)") {
+				break
+			}
+			if !step(dst, d, dData, "was used before for "+h.Label) {
+				continue
+			}
+			step(dst, inst, wantData, "was used before for "+h.Label+", then "+d.Label)
+		}
+	}
+	// (3) destination re-used after a rejected input
+	var bad []byte
+	if name == "json" {
+		var compact bytes.Buffer
+		if err := json.Compact(&compact, wantData); err != nil || compact.Len() < 2 || compact.Bytes()[0] != '{' {
+			return
+		}
+		bad = []byte(c18InsertKey(compact.String(), `1`, false))
+	} else {
+		bad = append(append([]byte{}, wantData...), c18UnknownFields(c18UnknownNumber(md))[0].Raw...)
+	}
+	starts := []*c18Inst{nil}
+	for i := range heads {
+		starts = append(starts, &heads[i])
+	}
+	for _, st := range starts {
+		dst := want.ProtoReflect().New().Interface()
+		history := "is fresh"
+		if st != nil {
+			dst = proto.Clone(st.Msg)
+			history = "was pre-populated with " + st.Label
+		}
+		var rerr error
+		if pn := c18Guard(func() { rerr = codec.Unmarshal(bad, dst) }); pn != "" || rerr == nil {
+			c.r.Count("codec:reuse-after-rejection-skipped:"+name, 1)
+			continue // acceptance of unknown fields is judged by codecUnknown
+		}
+		history += ", then received an input that was rejected (" + rerr.Error() + ")"
+		if !step(dst, inst, wantData, history) {
+			continue
+		}
+		for _, h := range heads {
+			if same(h, inst) {
+				continue
+			}
+			if hData := encode(h.Msg); hData != nil {
+				step(dst, h, hData, history+", then "+inst.Label)
+			}
+			break
+		}
+	}
+}
+
 // c18NestedTarget finds the first populated sub-message of a non-well-known
 // type (singular field or first list element).
 func c18NestedTarget(m protoreflect.Message) (fd protoreflect.FieldDescriptor, sub protoreflect.Message) {
@@ -1236,7 +1392,7 @@ func TestVerifC18Internal(t *testing.T) {
 	defer c.r.Write()
 	c.r.Rule = "errors: codes 1..16 x messages {unset, \"\", ascii, each single byte 0..127, 14 multi-byte/%-strings} x all ordered lists of 0..2 (thorough 0..3) details from a pool of 8 (registered types, default and foreign URL prefix, one non-canonical encoding), each checked on 6 conversion paths against the specification it was built from; " +
 		"headers: all lists of ≤2 (thorough ≤3) entries over 7 names (3 case variants of two keys, one more key) x 7 value lists, through AddHeaders/AddTrailers and ConvertToProtoHeader, compared per lower-cased key; " +
-		"codecs: every message descriptor of connectrpc.conformance.v1 x {empty, each field alone with 3 values, each pair of fields, all-fields-set per value index and oneof choice; nesting ≤2; duplicates removed} x {proto, json} x {Marshal, MarshalAppend nil/prefix, MarshalStable} plus 12 top-level and 6 nested unknown-field variants per codec; a case counts as non-trivial when it is a distinct error spec / non-empty header list / distinct message instance"
+		"codecs: every message descriptor of connectrpc.conformance.v1 x {empty, each field alone with 3 values, each pair of fields, all-fields-set per value index and oneof choice; nesting ≤2; duplicates removed} x {proto, json} x {Marshal, MarshalAppend nil/prefix, MarshalStable} plus 12 top-level and 6 nested unknown-field variants per codec, plus decoding into a destination that is not fresh (pre-populated with every other single-field / all-fields-set instance of the type; one destination for sequences of three different messages; re-used after a rejected unknown-field input), compared after every decode; a case counts as non-trivial when it is a distinct error spec / non-empty header list / distinct message instance"
 	if c.replayID == "" || strings.HasPrefix(c.replayID, "err/") {
 		c.errorSection()
 	}
